@@ -56,6 +56,10 @@ pub struct Sc {
     pub ts_pins_hash: bool,
     #[serde(default = "yes")]
     pub snap_pins_hash: bool,
+    /// delegated role names contain characters that are escaped in file names and URLs
+    /// (space, non-ASCII, slash): every role `x` is published as `x ö/1`
+    #[serde(default)]
+    pub odd_names: bool,
     pub top_delegates: Vec<String>,
     pub top_targets: usize,
     pub roles: Vec<RoleDef>,
@@ -76,6 +80,17 @@ fn one() -> u64 {
 
 fn yes() -> bool {
     true
+}
+
+const ODD_SUFFIX: &str = " \u{f6}/1";
+
+/// the name a role is published under
+fn published(sc: &Sc, name: &str) -> String {
+    if sc.odd_names {
+        format!("{name}{ODD_SUFFIX}")
+    } else {
+        name.to_string()
+    }
 }
 
 pub struct C09;
@@ -142,7 +157,7 @@ fn build(sc: &Sc) -> Built {
     let w = sc.world;
     let idx_of = |name: &str| sc.roles.iter().position(|r| r.name == name).unwrap_or(0);
     let spec_of = |name: &str| DelegSpec {
-        name: name.to_string(),
+        name: published(sc, name),
         keys: RoleKeys::one(&rkey(w, idx_of(name))),
         paths: Paths::Globs(vec!["*".into()]),
         terminating: false,
@@ -169,10 +184,11 @@ fn build(sc: &Sc) -> Built {
     metas.push(("targets.json".into(), Meta::of(1, &tgb, sc.snap_pins_len, sc.snap_pins_hash)));
     for (name, b) in &role_bytes {
         // delegated roles: version (+ length); tough does not check their digests
-        metas.push((format!("{name}.json"), Meta::of(1, b, sc.snap_pins_len, false)));
+        metas.push((format!("{}.json", published(sc, name)), Meta::of(1, b, sc.snap_pins_len, false)));
         role_pins.insert(name.clone(), if sc.snap_pins_len { Some(b.len() as u64) } else { None });
         sizes.insert(name.clone(), b.len());
-        files.insert(if sc.consistent { format!("1.{name}.json") } else { format!("{name}.json") }, b.clone());
+        let file = quote_role_name(&published(sc, name));
+        files.insert(if sc.consistent { format!("1.{file}.json") } else { format!("{file}.json") }, b.clone());
     }
     let sn = sign_threshold(snapshot_signed(1, FAR, &metas), &RoleKeys::one(&keys::ed(w, 3)));
     let snb = sn.bytes();
@@ -229,7 +245,8 @@ fn kind_of(rel: &str) -> String {
         Some((a, b)) if !a.is_empty() && a.bytes().all(|c| c.is_ascii_digit()) => b,
         _ => stem,
     };
-    stem.to_string()
+    let decoded = crate::transport::pct_decode(stem);
+    decoded.strip_suffix(ODD_SUFFIX).unwrap_or(&decoded).to_string()
 }
 
 fn graph(r: &mut Rng) -> (Vec<String>, Vec<RoleDef>) {
@@ -301,7 +318,7 @@ impl Check for C09 {
         "C09"
     }
     fn rule(&self) -> String {
-        "per-role limits from {0, size-1, exact size, default, huge}, max_root_updates from {0,1,3,10}, 0..12 newer valid roots or an endless root generator, timestamp/snapshot pinning lengths and digests independently or not, delegation graphs (none, tree depth<=3, self-delegation, mutual delegation, 3-cycle, diamond, one delegated role with 10..50 targets i.e. larger than targets.json), and for any subset of file kinds a hostile stream (whitespace padding or endless data); non-trivial = a hostile stream was pulled, a limit below the file size applied, a delegation cycle was entered or a delegated role larger than targets.json was fetched; distinct = distinct canonical trace".into()
+        "per-role limits from {0, size-1, exact size, default, huge}, max_root_updates from {0,1,3,10}, 0..12 newer valid roots or an endless root generator, timestamp/snapshot pinning lengths and digests independently or not, delegation graphs whose role names are plain or need escaping in file names (space, non-ASCII, slash) (none, tree depth<=3, self-delegation, mutual delegation, 3-cycle, diamond, one delegated role with 10..50 targets i.e. larger than targets.json), and for any subset of file kinds a hostile stream (whitespace padding or endless data); non-trivial = a hostile stream was pulled, a limit below the file size applied, a delegation cycle was entered or a delegated role larger than targets.json was fetched; distinct = distinct canonical trace".into()
     }
     fn assumptions(&self) -> Vec<String> {
         vec![
@@ -363,6 +380,7 @@ impl Check for C09 {
             snap_pins_len: r.chance(2, 3),
             ts_pins_hash: r.chance(1, 2),
             snap_pins_hash: r.chance(1, 2),
+            odd_names: r.chance(1, 3),
             top_delegates: top,
             top_targets: r.usize_below(4),
             roles,
@@ -407,6 +425,9 @@ impl Check for C09 {
         }
         if sc.prior.is_some() {
             v.push(Sc { prior: None, ..sc.clone() });
+        }
+        if sc.odd_names {
+            v.push(Sc { odd_names: false, ..sc.clone() });
         }
         if sc.shipped != 1 && sc.prior.map_or(true, |p| p.0 == 1) {
             v.push(Sc { shipped: 1, ..sc.clone() });
@@ -513,8 +534,8 @@ impl Check for C09 {
             request_bound + 5,
         );
         o.ev(format!(
-            "cfg consistent={} limits=({:?},{:?},{:?},{:?}) mru={} newer_roots={:?} pins=({},{}) pin_hashes=({},{}) top={:?}/{} roles={:?} hostile={:?} shipped={} prior={:?}",
-            sc.consistent, sc.lim_root, sc.lim_ts, sc.lim_snap, sc.lim_tg, sc.max_root_updates, sc.newer_roots, sc.ts_pins_len, sc.snap_pins_len, sc.ts_pins_hash, sc.snap_pins_hash,
+            "cfg consistent={} limits=({:?},{:?},{:?},{:?}) mru={} newer_roots={:?} pins=({},{}) pin_hashes=({},{}) odd_names={} top={:?}/{} roles={:?} hostile={:?} shipped={} prior={:?}",
+            sc.consistent, sc.lim_root, sc.lim_ts, sc.lim_snap, sc.lim_tg, sc.max_root_updates, sc.newer_roots, sc.ts_pins_len, sc.snap_pins_len, sc.ts_pins_hash, sc.snap_pins_hash, sc.odd_names,
             sc.top_delegates, sc.top_targets, sc.roles.iter().map(|r| (r.name.as_str(), r.delegates.clone(), r.n_targets)).collect::<Vec<_>>(), sc.hostile, sc.shipped, sc.prior
         ));
         let t2 = transport.clone();
